@@ -6,7 +6,7 @@ from . import common as C
 
 EVENT_NAMES = {1: 'storage got >1 packet', 2: 'sink ring wrapped', 3: 'filter ring wrapped', 4: 'trailing incomplete window',
                10: 'client consumed part of a multi-frame region', 11: 'client saw frames', 12: 'client held a region across stop/abort',
-               40: 'camera fault injected', 41: 'storage fault injected', 42: 'multi-frame packet at storage', 43: 'device closed while started',
+               40: 'camera fault injected', 41: 'storage fault injected', 42: 'multi-frame packet at storage', 43: 'device closed while started', 45: 'camera changed its shape during the run',
                20: 'writer slept on a full ring', 21: 'abort arrived while the source was blocked', 22: 'frame delivered after trigger'}
 
 
@@ -134,6 +134,9 @@ def c04_cfgs(tier):
          cfg('c04', 1, n=4, ringf=1, ringx=8, exposure=0),                  # camera without exposure wait
          cfg('c04', 'D2', n=5, ringf=3, ringx=8, append_ms=25, client=1, **base),  # slow storage + fast monitor: readers in different laps
          cfg('c04', 'D2', n=5, ringf=2, ringx=56, append_ms=25, client=3, **base),
+         # the camera's frames grow during the run: a frame larger than what is left behind the head and in front of the drained reader (forced wrap)
+         cfg('c04', 'D2', n=4, ringf=2, ringx=8, reshape_at=2, reshape_w=64, reshape_h=1, **base), cfg('c04', 1, n=4, ringf=2, ringx=8, reshape_at=1, reshape_w=64, reshape_h=1, **base),
+         cfg('c04', 'D2', n=5, ringf=2, ringx=8, reshape_at=2, reshape_w=64, reshape_h=1, client=1, **base), cfg('c04', 'D2', n=4, ringf=2, ringx=8, w=64, reshape_at=2, reshape_w=3, reshape_h=1, **base),
          # the real devices of the common driver in the loop: simulated camera (with its streamer thread) + raw file writer
          cfg('c04real', 1, n=3, ringf=2, ringx=8), cfg('c04real', 'D2', n=4, ringf=1, ringx=1), cfg('c04real', 'D2', n=3, trigger=1),
          cfg('c04real', 'D2', n=3, abort_instead=1)]
@@ -162,6 +165,10 @@ def c05_cfgs(tier):
     for (w, h) in ((1, 1), (3, 1), (5, 3), (2, 2), (7, 1), (3, 3)):
         for t in ((0, 1, 3) if tier == 'quick' else (0, 1, 2, 3, 5, 6, 7)):
             out.append(cfg('c10', 0, avg=2, n=4, ringf=3, ringx=8, fringf=2, fringx=8, w=w, h=h, type=t, exposure=4, client=3, prefill=0x42))
+    # the camera's shape changes during the run, between two frames and while a frame call is pending (each frame carries the shape delivered with it)
+    out += [cfg('c04', 1, n=4, ringf=3, ringx=8, w=3, h=2, type=t, exposure=4, reshape_at=k, reshape_mode=m, reshape_w=2, reshape_h=3) for t in (0, 1) for k in (1, 2) for m in (0, 1)]
+    out += [cfg('c04', 1, n=4, ringf=3, ringx=8, w=5, h=3, type=0, exposure=4, reshape_at=2, reshape_mode=1, reshape_w=3, reshape_h=3, client=1),
+            cfg('c04', 1, n=4, ringf=3, ringx=8, w=3, h=3, type=0, exposure=4, reshape_at=2, reshape_mode=0, reshape_w=7, reshape_h=3, client=3)]
     # averaging switched on/off by a re-configuration during the acquisition (source and filter both write the sink ring)
     out += [cfg('c08', 'D2', prog=p) for p in ('FswAS', 'FswAwS', 'AswFwS', 'FsAS')] + [cfg('c08', 1, prog='FswAS')]
     out += [cfg('c04', 1, n=4, ringf=3, ringx=8, w=5, h=1, type=0, exposure=4, client=3),
@@ -182,6 +189,8 @@ def c06_cfgs(tier):
     lag = dict(exposure=4, n=5, ringf=3, ringx=8)
     q += [cfg('c06', 'D1', ends=e, prog=p, **base) for e in ('as', 'aa', 'asa') for p in ('mL', 'L', 'wmL')] + [cfg('c06', 'D2', ends='as', prog='mL', **base)]
     q += [cfg('c06', 'D1', ends='ss', prog=p, **lag) for p in ('wp', 'wwp', 'wpp', 'pwp', 'wwpp')] + [cfg('c06', 'D2', ends='s', prog='wwp', **lag), cfg('c06', 'D2', ends='sa', prog='wpp', **lag)]
+    # the first acquisition's storage fails with frames still queued; the client first maps during the second acquisition
+    q += [cfg('c06', 'D1', ends=e, prog=p, fault_first=k, append_ms=12, **{**base, 'from': 1}) for e in ('ss', 'as') for p in ('m', 'wm') for k in (0, 1)]
     if tier == 'quick':
         return q
     t = list(q)
